@@ -157,6 +157,19 @@ func universeReqs(thorough bool) []davx.Req {
 			}
 		}
 	}
+	// PROPPATCH: understood, refused (403), or 400 for a body that is no propertyupdate document
+	for _, p := range pathsSl {
+		for _, b := range []string{"none", "pupdate", "allprop", "bad", "junk", "pupdate-noct"} {
+			r := davx.NewReq("PROPPATCH", p)
+			r.PfBody = b
+			out = append(out, r)
+		}
+	}
+	for _, m := range []string{"LOCK", "UNLOCK", "REPORT", "POST", "PATCH", "TRACE", "CONNECT", "proppatch", "Get", ""} {
+		for _, p := range []string{"/", "/a", "/zz"} {
+			out = append(out, davx.NewReq(m, p))
+		}
+	}
 	dests := append([]string{}, uPaths...)
 	dests = append(dests, "", "%zz", "b", "http://other.example/b", "/b/", "//h/a/b")
 	type hdr struct{ depth, ow string }
